@@ -34,26 +34,33 @@ structure RecOk (s : State) (f : Nat) (r : Rec) : Prop where
   wr      : r.wr = cnt s 2 r.subs
   ex      : r.ex = cnt s 4 r.subs
   kev     : r.kev = maskOf r
-  kern    : s.kern f = r.kev
+  kor     : s.kern f = r.kev ∨ s.kern f = 0     -- registered with exactly the cached mask, or not registered
   ser     : r.serial ≤ s.serial
-  inst    : r.inst = s.gen f
 
 /-- a logged callback is legitimate: the event was alive and enabled when `onEvent` was entered, one
-of its conditions was reported, it belongs to the descriptor whose ready entry is being served, that
-descriptor is still the open file the kernel reported on, the entry is one of this pass's ready
-list, and a one-shot event already reports disabled inside its callback -/
+of its conditions was reported, it belongs to the descriptor whose ready entry is being served, the
+entry is one of this pass's ready list, and a one-shot event already reports disabled inside its
+callback.  (That the descriptor is still the open file the kernel reported on is `Sync.log`.) -/
 structure CbOk (c : Cb) : Prop where
   alive    : c.aliveAt = true
   enabled  : c.enabledAt = true
   meets    : c.meets = true
   sameFd   : c.evFd = c.dispFd
-  instOk   : c.instOk = true
   inReady  : c.inReady = true
   oneshot  : c.oneshot = true → c.enabledInCb = false
 
 def OutOk : Out → Prop
   | .cb c => CbOk c
   | .bad _ => False
+
+/-- what holds as long as no descriptor was closed behind the back of an event object that still
+referred to it, and no descriptor number was left closed (`breach = false`): every record stands for the current open file of its descriptor,
+the kernel's epoll interest is exactly the cached mask, and every callback made so far was on a
+descriptor that was still the open file the kernel had reported on -/
+structure Sync (s : State) : Prop where
+  recs : ∀ f r, s.recs f = some r → s.kern f = r.kev ∧ r.inst = s.gen f
+  isOpen : ∀ f, s.isOpen f = true
+  log  : ∀ c, Out.cb c ∈ s.log → c.instOk = true
 
 structure Inv (s : State) : Prop where
   recs  : ∀ f r, s.recs f = some r → RecOk s f r
@@ -63,10 +70,16 @@ structure Inv (s : State) : Prop where
   fresh : ∀ e, s.nEv ≤ e → (s.evs e).alive = false
   log   : ∀ o ∈ s.log, OutOk o
 
-/-- between the moment the wait returned (`w`) and now: the creation counter only grew, and every
-record that already existed then still stands for the open file it stood for -/
+/-- between the moment the wait returned (`w`) and now the creation counter only grew -/
 structure PassInv (w : Wait) (s : State) : Prop where
   ser  : w.serial ≤ s.serial
-  inst : ∀ f r, s.recs f = some r → r.serial ≤ w.serial → r.inst = w.gen f
+
+/-- every record that already existed when the wait returned still stands for the open file it stood
+for then -/
+def PassSync (w : Wait) (s : State) : Prop :=
+  ∀ f r, s.recs f = some r → r.serial ≤ w.serial → r.inst = w.gen f
+
+/-- `Sync` as an invariant: it holds as long as the ghost flag is clear -/
+def SyncInv (s : State) : Prop := s.breach = false → Sync s
 
 end Tbox.C03
